@@ -38,7 +38,7 @@ func (rg *rig) stallSpecs(n int) []stallSpec {
 		}
 	}
 	switch rg.family {
-	case "http", "fake", "s3":
+	case "http", "fake", "s3", "azure":
 		add(opBSRead, cache.CAS, "before-response", "header", "body")
 		add(opHTTPGetCAS, cache.CAS, "before-response", "header", "body")
 		add(opFindMissing, cache.CAS, "before-response")
@@ -71,7 +71,7 @@ func (rg *rig) stallSpecs(n int) []stallSpec {
 // cancels (gRPC context / closing the HTTP connection). Everything the
 // request held must be released: the backend request must be abandoned, and
 // the quiescence and growth oracles see the rest.
-func (rg *rig) stallCase(ss stallSpec, id string, rng *rand.Rand) {
+func (rg *rig) stallCase(ss stallSpec, id string, rng *rand.Rand) (reachedBackend bool) {
 	r := rg.w.r
 	cs := caseSpec{e: &entry{name: "stall"}, op: ss.op, kind: ss.kind}
 	o := rg.makeObject(rng, cs, id)
@@ -119,7 +119,7 @@ func (rg *rig) stallCase(ss stallSpec, id string, rng *rand.Rand) {
 		rg.be.clearPlan(o.hash)
 		st.releaseAll()
 		r.Count("stall.not-reached." + ss.label())
-		return
+		return false
 	}
 	log("backend parked the request at %s (cut %d)", ss.where, p.cut)
 	cancel()
@@ -130,7 +130,7 @@ func (rg *rig) stallCase(ss stallSpec, id string, rng *rand.Rand) {
 		r.Inconclusive(fmt.Sprintf("%s: client call %s did not return within %v of its cancellation", rg.name, ss.op.name, clientReturnMax))
 		st.releaseAll()
 		rg.be.clearPlan(o.hash)
-		return
+		return true
 	}
 	log("client cancelled -> %s", out)
 	r.Eval()
@@ -160,6 +160,7 @@ func (rg *rig) stallCase(ss stallSpec, id string, rng *rand.Rand) {
 	r.Eval()
 	rg.judge(ss.op, o, "stall", "read-after-recovery", out2, expHit, det)
 	rg.checkPanics(ss.op.name, "stall/reread", det)
+	return true
 }
 
 // ---------------------------------------------------------------------------
